@@ -10,11 +10,11 @@ ap = argparse.ArgumentParser()
 ap.add_argument("driver"); ap.add_argument("module")
 ap.add_argument("--x", default=""); ap.add_argument("--n", default=""); ap.add_argument("--seed", type=int, default=1)
 ap.add_argument("--tier", default="quick"); ap.add_argument("--boundary", default='"ev":"prog"'); ap.add_argument("--keep", default="")
-ap.add_argument("--full", action="store_true")
+ap.add_argument("--full", action="store_true"); ap.add_argument("--only", default="")
 a = ap.parse_args()
 run = vlib.Run("DBG", a.tier, a.seed)
 tr = os.path.join(run.scratch, "t.ndjson")
-extra = (["-x", a.x] if a.x else []) + (["-n", a.n] if a.n else [])
+extra = (["-x", a.x] if a.x else []) + (["-n", a.n] if a.n else []) + (["-only", a.only] if a.only else [])
 info = run.harness(a.driver, tr, extra=extra, timeout=3000)
 print(info)
 v = run.validate_sharded(a.module, tr, boundary=a.boundary, shards=12, xss="512m")
@@ -22,7 +22,11 @@ lines = open(tr).read().splitlines()
 print("records", v["n"], "bad", len(v["bad"]), "drift", len(v["drift"]))
 for b in v["bad"]:
     r = json.loads(lines[b["i"] - 1])
-    print("----", b["i"], b["why"])
+    sc = None
+    for k in range(b["i"] - 1, -1, -1):
+        if '"ev":"prog"' in lines[k]:
+            sc = json.loads(lines[k]).get("scenario"); break
+    print("----", b["i"], "scenario", sc, b["why"])
     if a.full:
         print(json.dumps(r)[:6000])
     else:
